@@ -42,7 +42,9 @@ Cases == {[ws |-> w, aux |-> <<4, "none">>, dev |-> d, hist |-> h] : w \in WsVar
 Init == c \in Cases
 Next == UNCHANGED c
 Bytes == Enc(TxOf(c.ws, c.aux), <<>>, c.dev[1], c.dev[2])
-EmitScn == Emit([t |-> "SCN", kind |-> "tx", bytes |-> Bytes, dev |-> c.dev[2], ops |-> c.hist])
+\* the body and witness-set spans of the (deviated) transaction, for the read-only views of a body alone / inside a block
+PartSpan(i) == LET it == Parse(Bytes) IN IF ~IsErr(it) /\ it.mt = 4 /\ Len(it.kids) >= 2 THEN Span(Bytes, it.kids[i]) ELSE <<>>
+EmitScn == Emit([t |-> "SCN", kind |-> "tx", bytes |-> Bytes, dev |-> c.dev[2], ops |-> c.hist, body |-> IF c.hist = <<>> THEN PartSpan(1) ELSE <<>>, ws |-> IF c.hist = <<>> THEN PartSpan(2) ELSE <<>>])
 WellFormedEnc == WellFormed(Bytes)
 SameDataEnc == c.dev[2] \notin {"dupkey", "drop", "swap"} => SameData(Parse(Bytes), Parse(Canon(TxOf(c.ws, c.aux))))
 ====
